@@ -281,6 +281,9 @@ pub fn eval(ctx: &Ctx, case: &Case) {
 }
 
 pub fn replay(ctx: &Arc<Ctx>, v: &Value) {
+    if crate::cold::replay(ctx, v) {
+        return;
+    }
     let c: Case = serde_json::from_value(v.clone()).expect("C15 case");
     eval(ctx, &c);
 }
@@ -387,4 +390,5 @@ pub fn run(ctx: &Arc<Ctx>) {
     run_cases(ctx, &cases, 4, eval);
     // the GM/T 0003.5 key-exchange example is configuration 0 (tag "annex"); the reference it is compared with
     // reproduces the Annex values K, S_B, S_A in its start-up self-test
+    crate::cold::check(ctx, "C15");
 }
